@@ -150,15 +150,101 @@ fn strategy(fams: &'static [Fam], max_log_n: u8) -> BoxedStrategy<BeCase> {
     (crate::c09::be_strategy(), ops::case_strategy(ops, max_log_n)).prop_map(|(be, c)| BeCase { be, c }).boxed()
 }
 
+// ---------------------------------------------------------------------------
+// secret / plaintext sampling on ScalarZnx: the selected column is a function of (parameters, seed) only
+// ---------------------------------------------------------------------------
+
+#[derive(Clone, Debug, serde::Serialize, serde::Deserialize)]
+pub struct FillCase {
+    pub kind: u8,
+    pub log_n: u8,
+    pub cols: u8,
+    pub col: u8,
+    pub param: u16,
+    pub seed: u64,
+    /// sample twice into the same object (re-keying) with this second parameter / seed
+    pub again: Option<(u16, u64)>,
+}
+
+pub const FILLS: [&str; 5] = ["fill_ternary_prob", "fill_ternary_hw", "fill_binary_prob", "fill_binary_hw", "fill_binary_block"];
+
+fn do_fill(v: &mut poulpy_hal::layouts::ScalarZnx<Vec<u8>>, kind: usize, col: usize, param: u16, n: usize, seed: u64) {
+    let mut src = poulpy_hal::source::Source::new(pzv_common::model::SplitMix::new(seed).seed32());
+    match kind {
+        0 => v.fill_ternary_prob(col, (param % 17) as f64 / 16.0, &mut src),
+        1 => v.fill_ternary_hw(col, param as usize % (n + 1), &mut src),
+        2 => v.fill_binary_prob(col, (param % 17) as f64 / 16.0, &mut src),
+        3 => v.fill_binary_hw(col, param as usize % (n + 1), &mut src),
+        _ => {
+            // block size dividing n
+            let bs = 1usize << (param as usize % (n.trailing_zeros() as usize + 1));
+            v.fill_binary_block(col, bs, &mut src)
+        }
+    }
+}
+
+pub fn fill_test(c: &FillCase) -> Verdict {
+    use poulpy_hal::layouts::{ScalarZnx, ZnxView, ZnxViewMut};
+    let n = 1usize << c.log_n.min(10);
+    let cols = c.cols.clamp(1, 3) as usize;
+    let col = c.col as usize % cols;
+    let kind = c.kind as usize % FILLS.len();
+    let name = FILLS[kind];
+    let mut clean = ScalarZnx::alloc(n, cols);
+    let mut dirty = ScalarZnx::alloc(n, cols);
+    let mut r = pzv_common::model::SplitMix::new(c.seed ^ 0xD1);
+    for x in dirty.raw_mut().iter_mut() {
+        *x = r.signed(40) | 1;
+    }
+    let before = dirty.raw().to_vec();
+    if let Some((p2, s2)) = c.again {
+        // an earlier sampling into the same object (other parameter, other seed) must leave no trace
+        do_fill(&mut dirty, kind, col, p2, n, s2);
+    }
+    let (ra, rb) = (pzv_common::driver::guarded(|| do_fill(&mut clean, kind, col, c.param, n, c.seed)), pzv_common::driver::guarded(|| do_fill(&mut dirty, kind, col, c.param, n, c.seed)));
+    match (ra, rb) {
+        (Ok(()), Ok(())) => {}
+        (Err(_), Err(_)) => return Verdict::pass(false, &[name, "rejected_parameters"]),
+        (a, b) => return Verdict::fail(format!("{name}|panic-depends-on-prior-content"), format!("{name}: sampling into a zeroed object {:?}, into a used one {:?}\ncase={c:?}", a.err(), b.err())),
+    }
+    if clean.at(col, 0) != dirty.at(col, 0) {
+        let i = (0..n).find(|i| clean.at(col, 0)[*i] != dirty.at(col, 0)[*i]).unwrap();
+        return Verdict::fail(format!("{name}|stale-output"), format!("{name}: column {col} of a used object differs from the same sampling into a zeroed object at coefficient {i}: {} vs {} (N={n}, {} earlier sampling)\ncase={c:?}", dirty.at(col, 0)[i], clean.at(col, 0)[i], if c.again.is_some() { "with an" } else { "no" }));
+    }
+    for other in 0..cols {
+        if other != col && (dirty.at(other, 0) != &before[other * n..(other + 1) * n] || clean.at(other, 0).iter().any(|x| *x != 0)) {
+            return Verdict::fail(format!("{name}|stray-write"), format!("{name} on column {col} modified column {other}\ncase={c:?}"));
+        }
+    }
+    let mut cl = vec![name];
+    if c.again.is_some() {
+        cl.push("second_sampling_into_the_same_object");
+    }
+    if cols > 1 {
+        cl.push("multi_column");
+    }
+    Verdict::pass(n >= 2, &cl)
+}
+
+fn fill_strategy() -> BoxedStrategy<FillCase> {
+    (0u8..5, 0u8..=10, 1u8..=3, any::<u8>(), any::<u16>(), any::<u64>(), proptest::option::weighted(0.5, (any::<u16>(), any::<u64>())))
+        .prop_map(|(kind, log_n, cols, col, param, seed, again)| FillCase { kind, log_n, cols, col, param, seed, again })
+        .boxed()
+}
+
 pub fn run(ctx: &Ctx) {
     let t = ctx.tier;
     ctx.run_sub("coefficient_ops_two_fills", t.pick(200_000, 2_000_000), 64, || strategy(&[Fam::Ring, Fam::Norm, Fam::BigRing, Fam::BigNorm, Fam::Sample], 8), test);
     ctx.run_sub("dft_ops_two_fills", t.pick(150_000, 1_500_000), 64, || strategy(&[Fam::Dft], 8), test);
     ctx.run_sub("all_ops_two_fills_large_n", t.pick(6_000, 60_000), 64, || strategy(&[Fam::Ring, Fam::Norm, Fam::BigRing, Fam::BigNorm, Fam::Dft, Fam::Sample], 13), test);
+    ctx.run_sub("secret_sampling_overwrites", t.pick(100_000, 1_000_000), 64, fill_strategy, fill_test);
 }
 
 pub fn replay(ctx: &Ctx, sub: &str, case: &serde_json::Value) -> i32 {
+    if sub == "secret_sampling_overwrites" {
+        return ctx.replay_case::<FillCase, _>(sub, case, fill_test);
+    }
     ctx.replay_case::<BeCase, _>(sub, case, test)
 }
 
-pub const RULE: &str = "cases = (backend, any registry op (HAL coefficient, big, DFT, svp, vmp, convolution, sampling), shapes with 1..3 columns and every target column, res shorter/equal/longer than inputs, size < max_size, selections past the input); each case runs twice from two garbage fills of every writable byte and of every byte of the inputs that is not selected, plus once with the target column moved. Checks: declared output identical across fills; no byte outside the selected column changes (other columns, limbs beyond size, read-only operands, guard regions); moving the column moves the result. non-trivial = (multi-column or size mismatch or size < capacity) and input != 0.";
+pub const RULE: &str = "cases = (backend, any registry op (HAL coefficient, big, DFT, svp, vmp, convolution, sampling), shapes with 1..3 columns and every target column, res shorter/equal/longer than inputs, size < max_size, selections past the input); each case runs twice from two garbage fills of every writable byte and of every byte of the inputs that is not selected, plus once with the target column moved. Checks: declared output identical across fills; no byte outside the selected column changes (other columns, limbs beyond size, read-only operands, guard regions); moving the column moves the result. non-trivial = (multi-column or size mismatch or size < capacity) and input != 0. Sub-check secret_sampling_overwrites: the five ScalarZnx sampling functions (ternary / binary with probability or fixed weight, block-binary) on N = 1..1024, 1..3 columns: sampling into a used object (optionally after an earlier sampling with other parameters) gives exactly the column that the same (parameters, seed) give in a zeroed object, and no other column changes.";
